@@ -56,8 +56,12 @@ const ruleDefault = "evaluations = feasible execution paths of the harness explo
 
 var checks = []Check{
 	{
+		ID: "SMOKE", Title: "engine self-check", Level: "model_checking",
+		Units: []Unit{evalUnit([]string{"evaluator/common.go", "evaluator/smoke.go"}, Harness{Fn: "ZZSmokePipeline"})},
+	},
+	{
 		ID: "C11", Title: "Index and slice laws for arrays and strings", Level: "model_checking",
-		Units: []Unit{evalUnit([]string{"evaluator/c11.go"},
+		Units: []Unit{evalUnit([]string{"evaluator/common.go", "evaluator/c11.go"},
 			Harness{Fn: "ZZC11ArrayIndex", Quick: p("N", 4), Thorough: p("N", 8), Expect: []string{"index-ok", "index-err", "index-conv-undefined", "witness:end"}, Cross: true},
 			Harness{Fn: "ZZC11ArraySlice", Quick: p("N", 3), Thorough: p("N", 6), Expect: []string{"slice-ok", "slice-err", "witness:end"}},
 			Harness{Fn: "ZZC11StringIndex", Quick: p("N", 3), Thorough: p("N", 6), Expect: []string{"sindex-ok", "sindex-err", "witness:end"}},
@@ -71,6 +75,23 @@ var checks = []Check{
 		LevelText: "bounded symbolic execution of normalizeIndex/normalizeSliceIndices/arrayVal.Index,SetIndex,Slice/stringVal.Index,Slice from SSA: index and bounds are unconstrained float64 terms, string code points unconstrained Unicode scalars, all paths for lengths 0..N explored, each branch and assertion decided by cvc5 (FP+BV theories)",
 		LevelNote: "trusts: the SSA interpreter fork and its SMT encoding of Go float64/int semantics (validated by native replay of every counterexample), cvc5; lengths bounded by N; float->int conversion outside int64 range modelled as unconstrained",
 		DesignRef: "DESIGN.md §6 C11",
+		Technique: technique,
+	},
+	{
+		ID: "C12", Title: "Maps are insertion-ordered dictionaries", Level: "model_checking",
+		Units: []Unit{evalUnit([]string{"evaluator/common.go", "evaluator/c12.go"},
+			Harness{Fn: "ZZC12Step", Quick: p("K", 3), Thorough: p("K", 4), Expect: []string{"missing-key", "op-ok", "witness:end"}},
+			Harness{Fn: "ZZC12Iter", Quick: p("K", 3), Thorough: p("K", 4), Expect: []string{"iter-ok", "witness:end"}},
+			Harness{Fn: "ZZC12Equal", Quick: p("K", 2), Thorough: p("K", 3), Expect: []string{"witness:end"}},
+		)},
+		Assumptions: []string{
+			"keys are never inspected by the map code, so a small key alphabet stands for all keys (data independence: stated, not proved)",
+			"pre-states are built by a map literal of every ordered subset of the alphabet; values are unconstrained float64",
+		},
+		Outside:   []string{"key alphabets larger than K+1", "sequences of more than two operations are covered only through the inductive step (invariant + one operation)"},
+		LevelText: "inductive step + iteration protocol by bounded symbolic execution: every ordered subset of the key alphabet as pre-state (representation invariant checked after the step), every operation x key x alias, values symbolic; executed through the real lexer, parser and evaluator (evalMapLiteral, evalAssignIndexExpr, evalAssignDotExpr, mapVal.SetKey/Delete/Get/Equals/String, newRange, mapRange.next, has/del/len) and compared with an abstract ordered dictionary",
+		LevelNote: "trusts the abstract dictionary written from docs/spec.md, the engine and cvc5; key alphabet of K+1 keys",
+		DesignRef: "DESIGN.md §6 C12",
 		Technique: technique,
 	},
 }
